@@ -161,12 +161,111 @@ pub fn hdr_obs(bytes: &[u8]) -> String {
     format!("th={:x} ah={:x} name={}", th, ah, hex(&bytes[37..37 + nl]))
 }
 
+pub fn erase_refs(s: &str) -> String {
+    let mut out = String::with_capacity(s.len());
+    let mut skipping = false;
+    for c in s.chars() {
+        if skipping {
+            if c == ':' {
+                skipping = false;
+            }
+        } else if c == '&' {
+            skipping = true;
+        } else {
+            out.push(c);
+        }
+    }
+    out
+}
+
+fn rle(codes: &[String]) -> String {
+    let mut out = String::new();
+    let mut i = 0;
+    while i < codes.len() {
+        let mut j = i;
+        while j < codes.len() && codes[j] == codes[i] {
+            j += 1;
+        }
+        out.push_str(&format!("{}*{} ", codes[i], j - i));
+        i = j;
+    }
+    out
+}
+
+fn class_of(s: &str) -> String {
+    if s.starts_with("OK") {
+        "OK".into()
+    } else if let Some(e) = s.strip_prefix("ERR ") {
+        e.to_string()
+    } else if s.starts_with("PANIC") {
+        "P".into()
+    } else {
+        s.to_string()
+    }
+}
+
+/// "OK <canon> pos=.." -> "OK:<canon>", "ERR x" -> "E:x", "PANIC" -> "P"
+fn code_of(s: &str, erase: bool) -> String {
+    if let Some(r) = s.strip_prefix("OK ") {
+        let v = r.split(" pos=").next().unwrap_or("");
+        format!("OK:{}", if erase { erase_refs(v) } else { v.to_string() })
+    } else if let Some(e) = s.strip_prefix("ERR ") {
+        format!("E:{}", e)
+    } else if s.starts_with("PANIC") {
+        "P".into()
+    } else {
+        s.to_string()
+    }
+}
+
+pub struct SchemaObs {
+    pub line: String,
+    pub rows: Vec<(String, usize, usize, usize)>,
+}
+
+pub fn schema_obs<S: Serialize>(v: &S, plain: &Option<Vec<u8>>) -> SchemaObs {
+    let mut w = RecWriter::default();
+    let r = catch_unwind(AssertUnwindSafe(|| v.serialize_with_schema(&mut w)));
+    match r {
+        Ok(Ok(schema)) => {
+            let rows: Vec<(String, usize, usize, usize)> = schema
+                .0
+                .iter()
+                .map(|r| (r.field.clone(), r.offset, r.size, r.align))
+                .collect();
+            let txt: Vec<String> = rows
+                .iter()
+                .map(|(f, o, s, a)| format!("{}|{:x}|{:x}|{:x}", f, o, s, a))
+                .collect();
+            let same = match plain {
+                Some(b) => *b == w.bytes,
+                None => false,
+            };
+            let csv = catch_unwind(AssertUnwindSafe(|| schema.to_csv().len())).is_ok();
+            let dbg = catch_unwind(AssertUnwindSafe(|| schema.debug(&w.bytes).len())).is_ok();
+            SchemaObs {
+                line: format!(
+                    "OK rows={} csv={} debug={} same={}",
+                    txt.join(";"),
+                    if csv { "ok" } else { "panic" },
+                    if dbg { "ok" } else { "panic" },
+                    if same { "y" } else { "n" }
+                ),
+                rows,
+            }
+        }
+        Ok(Err(e)) => SchemaObs { line: format!("ERR {}", show_ser_err(&e)), rows: vec![] },
+        Err(_) => SchemaObs { line: "PANIC".into(), rows: vec![] },
+    }
+}
+
 /// Run the requested observations for one case. `S` is the serialized type, `D` its SerType.
-pub fn run_case<S: Serialize, D: Deserialize + TypeHash + AlignHash + Obs>(cid: &str, v: &S, ops: &[String], arena: &mut Arena, out: &mut String)
+pub fn run_case<S: Serialize, D: Deserialize + TypeHash + AlignHash + Obs>(cid: &str, mk: &dyn Fn() -> S, ops: &[String], arena: &mut Arena, out: &mut String)
 where
     for<'a> DeserType<'a, D>: Obs,
 {
-    let (ser_line, bytes) = ser_obs(v);
+    // a fresh value for every serialization: iterators are consumed by serializing them
+    let (ser_line, bytes) = ser_obs(&mk());
     for op in ops {
         let mut it = op.splitn(2, ':');
         let k = it.next().unwrap();
@@ -188,6 +287,104 @@ where
                     let r = usize::from_str_radix(arg, 16).unwrap();
                     let placed = arena.place(r, b);
                     out.push_str(&format!("{} eps:{} {}\n", cid, arg, eps_obs::<D>(placed)));
+                }
+            }
+            "schema" => {
+                let so = schema_obs(&mk(), &bytes);
+                out.push_str(&format!("{} schema {}\n", cid, so.line));
+            }
+            "cuts" => {
+                if let Some(b) = &bytes {
+                    let mut fc = vec![];
+                    let mut ec = vec![];
+                    // the full stream stays behind each prefix: a read past the prefix would succeed
+                    arena.place(0, b);
+                    for k in 0..b.len() {
+                        fc.push(class_of(&full_obs::<D>(&b[..k])));
+                        let placed = &arena.place(0, b)[..k];
+                        ec.push(class_of(&eps_obs::<D>(placed)));
+                    }
+                    out.push_str(&format!("{} cuts full={} eps={}\n", cid, rle(&fc), rle(&ec)));
+                }
+            }
+            "flips" => {
+                if let Some(b) = &bytes {
+                    let mut res = vec![];
+                    let mut test = |tag: String, bs: &[u8], arena: &mut Arena| {
+                        let f = code_of(&full_obs::<D>(bs), false);
+                        let placed = arena.place(0, bs);
+                        let e = code_of(&eps_obs::<D>(placed), true);
+                        res.push(format!("{}={}", tag, if f == e { f } else { format!("{}//{}", f, e) }));
+                    };
+                    for i in 0..29 * 8 {
+                        let mut m = b.clone();
+                        m[i / 8] ^= 1 << (i % 8);
+                        test(i.to_string(), &m, arena);
+                    }
+                    let mut m = b.clone();
+                    m[..8].reverse();
+                    test("rev".into(), &m, arena);
+                    for minor in [0u16, 1, 2, 255, 256, 65535] {
+                        let mut m = b.clone();
+                        m[10..12].copy_from_slice(&minor.to_le_bytes());
+                        test(format!("minor{}", minor), &m, arena);
+                    }
+                    out.push_str(&format!("{} flips {}\n", cid, res.join(" ")));
+                }
+            }
+            "place" => {
+                if let Some(b) = &bytes {
+                    let mut codes = vec![];
+                    let mut misaligned = 0usize;
+                    for r in 0..128usize {
+                        let placed = arena.place(r, b);
+                        let o = eps_obs::<D>(placed);
+                        if o.contains("MISALIGNED") {
+                            misaligned += 1;
+                        }
+                        codes.push(class_of(&o));
+                    }
+                    out.push_str(&format!("{} place {} misaligned={}\n", cid, rle(&codes), misaligned));
+                }
+            }
+            "tags" => {
+                // arg: comma separated number of valid tags for each tag position, in stream order
+                if let Some(b) = &bytes {
+                    let counts: Vec<u64> = arg.split(',').filter(|s| !s.is_empty()).map(|s| s.parse().unwrap()).collect();
+                    let so = schema_obs(&mk(), &bytes);
+                    let tagrows: Vec<&(String, usize, usize, usize)> = so
+                        .rows
+                        .iter()
+                        .filter(|(f, _, s, _)| (f.ends_with(".Tag") && *s == 1) || (f.ends_with(".tag") && *s == 8))
+                        .collect();
+                    let mut parts = vec![];
+                    if tagrows.len() != counts.len() {
+                        parts.push(format!("TAGROWS-MISMATCH rows={} expected={}", tagrows.len(), counts.len()));
+                    } else {
+                        for (row, n) in tagrows.iter().zip(counts.iter()) {
+                            let (_, off, size, _) = row;
+                            let vals: Vec<u64> = if *size == 1 {
+                                (*n..256).collect()
+                            } else {
+                                vec![*n, *n + 1, 255, 256, 1 << 32, 1 << 63, u64::MAX].into_iter().filter(|x| x >= n).collect()
+                            };
+                            let mut codes = vec![];
+                            for val in vals {
+                                let mut m = b.clone();
+                                if *size == 1 {
+                                    m[*off] = val as u8;
+                                } else {
+                                    m[*off..*off + 8].copy_from_slice(&val.to_le_bytes());
+                                }
+                                let f = code_of(&full_obs::<D>(&m), false);
+                                let placed = arena.place(0, &m);
+                                let e = code_of(&eps_obs::<D>(placed), true);
+                                codes.push(format!("{:x}>{}", val, if f == e { f } else { format!("{}//{}", f, e) }));
+                            }
+                            parts.push(format!("@{:x}/{}:{}", off, size, codes.join(",")));
+                        }
+                    }
+                    out.push_str(&format!("{} tags {}\n", cid, parts.join(" ")));
                 }
             }
             _ => panic!("unknown op {}", op),
